@@ -1,7 +1,7 @@
 SPECIFICATION Spec
 CONSTANTS
   Scenarios <- ThoroughScenarios
-  Ticks = TRUE
+  Ticks = FALSE
   SkipFix = TRUE
   CctFix = TRUE
   SelfFailFix = TRUE
